@@ -4,7 +4,7 @@
    repaired model ([fixed := true]) give an error to the callback and the
    no-op metric (Props/C17.v, C17_conflict_never_nil). *)
 From Coq Require Import ZArith List Bool.
-From Tally Require Import Base.Obs Model.Buckets Model.Prom.
+From Tally Require Import Base.ObsCore Model.Buckets Model.Prom.
 Import ListNotations.
 Open Scope Z_scope.
 
